@@ -18,8 +18,8 @@ def run(ctx):
         "neither hash function reads the counters",
         "H6 from-scratch hash and validation read the normalised raw board; RawBoard::zobrist_hash uses the same four key families",
     ]
-    ctx.not_decided += ["equality of values along whole histories as such: it follows by induction over make/unmake from H2/H5 per "
-                        "step and C04; hash collisions between different positions are inherent and out of scope"]
+    ctx.not_decided += ["equality of values along whole histories as such: it follows by induction over make/unmake from H2/H5/H7 per "
+                        "step; hash collisions between different positions are inherent and out of scope"]
     sim_rules(ctx, facts, {
         "H2": ("hash delta of every make arm = zobrist(post)^zobrist(pre)", ("hash",), "make/"),
         "H5": ("occupancy sets follow the squares in make and unmake", ("occupancy", "unmodelled"), ""),
@@ -29,3 +29,6 @@ def run(ctx):
     hashrules.key_algebra_rule(ctx, facts, "H3")
     hashrules.key_distinct_rule(ctx, facts, "H4")
     hashrules.from_scratch_rule(ctx, facts, "H6")
+    from .shared import undo_component
+    undo_component(ctx, facts, "H7", "after an undo the stored hash and the sets are again those of the restored squares: the hash comes back "
+                   "from the undo record, so the record must hold the value read before the move touched it")
